@@ -181,9 +181,7 @@ func (it *omapIter) next() tuple {
 		i := 0
 		if it.perm && len(it.rest) > 1 {
 			// nondeterministic choice of the next entry
-			v := it.r.freshVar("maporder", 8)
-			it.r.assumeRange(v, 0, uint64(len(it.rest)-1))
-			i = int(it.r.concInt(sym{v, types.Uint8}, "map-order"))
+			i = it.r.choice("maporder", len(it.rest), "map-order")
 		}
 		e := it.rest[i]
 		it.rest = append(it.rest[:i:i], it.rest[i+1:]...)
